@@ -712,6 +712,11 @@ func getAffectedBlocks(idx *labels.Index, svsplit *labels.SVSplitMap) (affectedB
 // voxels are within the fromLabel set of voxels and will generate unspecified behavior if this is
 // not the case.
 func (d *Data) SplitLabels(v dvid.VersionID, fromLabel uint64, r io.ReadCloser, info dvid.ModInfo) (toLabel, mutID uint64, err error) {
+	// Only do voxel-based mutations one at a time.  This lets us remove handling for block-level concurrency.
+	// Lock order is voxelMu, bodyMu, index shard: a voxel write holds voxelMu while its index changes wait for bodyMu.
+	d.voxelMu.Lock()
+	defer d.voxelMu.Unlock()
+
 	d.bodyMu.Lock()
 	defer d.bodyMu.Unlock()
 
@@ -761,10 +766,6 @@ func (d *Data) SplitLabels(v dvid.VersionID, fromLabel uint64, r io.ReadCloser, 
 		err = fmt.Errorf("split volume of %d voxels >= %d of label %d", splitSize, fromLabelSize, fromLabel)
 		return
 	}
-
-	// Only do voxel-based mutations one at a time.  This lets us remove handling for block-level concurrency.
-	d.voxelMu.Lock()
-	defer d.voxelMu.Unlock()
 
 	d.StartUpdate()
 	defer d.StopUpdate()
@@ -896,6 +897,11 @@ func (d *Data) SplitLabels(v dvid.VersionID, fromLabel uint64, r io.ReadCloser, 
 // The first returned label is assigned to the split voxels while the second returned label is
 // assigned to the remainder voxels.
 func (d *Data) SplitSupervoxel(v dvid.VersionID, svlabel, splitlabel, remainlabel uint64, r io.ReadCloser, info dvid.ModInfo, downscale bool) (splitSupervoxel, remainSupervoxel, mutID uint64, err error) {
+	// Only do voxel-based mutations one at a time.  This lets us remove handling for block-level concurrency.
+	// Lock order is voxelMu, bodyMu, index shard: a voxel write holds voxelMu while its index changes wait for bodyMu.
+	d.voxelMu.Lock()
+	defer d.voxelMu.Unlock()
+
 	d.bodyMu.Lock()
 	defer d.bodyMu.Unlock()
 
@@ -968,10 +974,6 @@ func (d *Data) SplitSupervoxel(v dvid.VersionID, svlabel, splitlabel, remainlabe
 	if remainSize == 0 {
 		dvid.Infof("split on supervoxel %d -> %d was given split size %d, which is entire supervoxel\n", svlabel, splitlabel, splitSize)
 	}
-
-	// Only do voxel-based mutations one at a time.  This lets us remove handling for block-level concurrency.
-	d.voxelMu.Lock()
-	defer d.voxelMu.Unlock()
 
 	// store split info into separate data.
 	var splitData []byte
